@@ -35,6 +35,7 @@ def run(ck, fb):
     r09f(ck, fb)
     r09g(ck, fb)
     r09h(ck, fb)
+    r09i(ck, fb)
 
 
 PAIR_EXCEPTIONS = {
@@ -428,3 +429,26 @@ def r09h(ck, fb):
         win = [a for a in cfg.guard_atoms(b, s.bb) if a[0] == 'cmp' and a[1] in ('Ge', 'Lt', 'Le', 'Gt')]
         ck.require(g and d and len(win) >= 2, 'R09h', 'query_config_page:push-guarded', s.where(),
                    'a key is added to the page outside the filters / the page window')
+
+
+def r09i(ck, fb):
+    ck.rule('R09i', 'a committed value is not temporary: ConfigValue::update_value (the store step of every applied publish) clears the `tmp` mark on '
+                    'every path to its return. set_config skips the unchanged-content short cut while tmp is set, so a mark that survives an applied '
+                    'publish makes every later identical publish append a history entry and notify listeners')
+    b = ck.body(CV + 'update_value', 'R09i')
+    if not b:
+        return
+    from rn.facts import pl_proj
+    ws = []
+    for (i, j, st) in b.stmts():
+        d = st.get('d')
+        if isinstance(d, dict):
+            fs = [e.get('f') for e in pl_proj(d) if isinstance(e, dict) and 'f' in e]
+            rv = st.get('rv') or {}
+            if fs[-1:] == ['tmp'] and rv.get('k') == 'use' and 'c' in rv.get('op', {}) and rv['op']['c'].get('v') in (False, 'false', 0):
+                ws.append(i)
+    ok = bool(ws) and cfg.must_pass_before_return(b, 0, set(ws))
+    ck.require(ok, 'R09i', 'update_value:clears-tmp', b.where(),
+               'update_value can return without clearing tmp: a key that received a routed temporary value keeps the mark after the publish was applied; '
+               'republishing the same content is then treated as a change every time (duplicate history entries push real ones out of the 100-entry '
+               'window, listeners are notified)', 'tmp = false on every path')
